@@ -976,3 +976,128 @@ Print Assumptions cinv_init.
 Print Assumptions cinv_step.
 Print Assumptions cinv_run.
 Print Assumptions freed_unassigned_step.
+
+(** * the property theorems (Props/C10.v) *)
+Lemma cloud_wellformed_l nodes ops : let w0 := world0 true nodes in wf_c10_hist w0 ops →
+  let w := prun w0 ops in log_wf w ∧ cloud_live w ∧ cloud_alloc w.
+Proof.
+  intros w0 Hh w. pose proof (cinv_run ops w0 (cinv_init true nodes) Hh) as HC.
+  split_and!; [apply HC| |apply HC]. apply (ci_live _ HC).
+  unfold w. by rewrite (provider_run ops w0 (cinv_init true nodes) Hh).
+Qed.
+
+Lemma freed_before_reuse_l nodes ops o : let w0 := world0 true nodes in wf_c10_hist w0 (ops ++ [o]) →
+  freed_unassigned (prun w0 ops) (prun w0 (ops ++ [o])).
+Proof.
+  intros w0 Hh. apply wf_c10_hist_app in Hh as [Hh [Ho _]]. rewrite prun_app.
+  pose proof (cinv_run ops w0 (cinv_init true nodes) Hh) as HC.
+  apply (freed_unassigned_step _ o HC Ho). by rewrite (provider_run ops w0 (cinv_init true nodes) Hh).
+Qed.
+
+(** ** concrete histories
+    Configuration: one pool 10.100.0.2~10.100.0.9 (10.100.0.2 = 174325762), routable from 10.1.0.0/24 and
+    10.2.0.0/24; node1 = 10.1.0.7, node2 = 10.2.0.9; a cloud provider is configured.  One pod web-0 (uid uA) of
+    the statefulset ns1/web, default release policy. *)
+Definition c10_conf : list json :=
+  [JObj [(L "nodeSubnets", JArr [JStr (L "10.1.0.0/24"); JStr (L "10.2.0.0/24")]);
+         (L "ips", JArr [JStr (L "10.100.0.2~10.100.0.9")]);
+         (L "subnet", JStr (L "10.100.0.0/24"));
+         (L "gateway", JStr (L "10.100.0.1"));
+         (L "vlan", JNum 2%Z)]].
+Definition c10_nodes : gmap str N := list_to_map [(L "node1", 167837703); (L "node2", 167903241)].
+Definition c10_pod (rs : list (list range)) : pod :=
+  {| pd_ns := L "ns1"; pd_name := L "web-0"; pd_uid := L "uA"; pd_kind := KSts; pd_app := L "web"; pd_pool := [];
+     pd_policy := 0; pd_ranges := rs; pd_phase := 0; pd_node := []; pd_ips := [] |}.
+Definition c10_web0 : pkey := (L "ns1", L "web-0").
+Definition c10_orc (f c : option N) (l : list N) : oracle := {| o_first := f; o_choice := c; o_order := l |}.
+Definition c10_ip2 : N := 174325762.
+Definition c10_ip3 : N := 174325763.
+
+Lemma c10_pod_wf rs : wf_pod (c10_pod rs).
+Proof.
+  constructor; cbn [c10_pod pd_ns pd_name pd_uid pd_kind pd_app pd_pool]; try (apply small_name_ok'; reflexivity); try discriminate.
+  apply contains_char_false. reflexivity.
+Qed.
+
+Lemma uid_fresh_empty w u : w_pods w = ∅ → w_lister w = ∅ → w_queue w = [] → uid_fresh w u.
+Proof.
+  intros E1 E2 E3. split_and!.
+  - intros k q. by rewrite E1, lookup_empty.
+  - intros k q. by rewrite E2, lookup_empty.
+  - rewrite E3. constructor.
+Qed.
+Lemma keeps_live_empty w conf : w_pods w = ∅ → keeps_live w conf.
+Proof. intros E ps _ k p x. by rewrite E, lookup_empty. Qed.
+Lemma keeps_assigned_empty w conf : w_cloud w = ∅ → keeps_assigned w conf.
+Proof. intros E ps x n _. by rewrite E, lookup_empty. Qed.
+Lemma k3_free_empty w ns name node : w_cloud w = ∅ → k3_free w ns name node.
+Proof. intros E l x e n _ _ _. by rewrite E, lookup_empty. Qed.
+
+(** K3: the binding call of Bind(node1) fails after AssignIP(ip, node1); the scheduler retries on node2 *)
+Definition h_k3 : list pop := [
+  PIpam (OConfigure c10_conf false []);
+  PEnv (EStsSet (L "ns1", L "web") (Some 1));
+  PEnv (EPodPut (c10_pod []));
+  PEnv (EInformer c10_web0);
+  PFilter c10_web0 [L "node1"; L "node2"] (c10_orc None None []) no_faults;
+  PBind (L "ns1") (L "web-0") (L "uA") (L "node1") (c10_orc None (Some c10_ip2) [])
+        {| f_store := None; f_update := None; f_cloud := None; f_bind := 1 |};
+  PBind (L "ns1") (L "web-0") (L "uA") (L "node2") (c10_orc (Some c10_ip2) None []) no_faults ].
+
+(** K3b: a pod with two requested range lists holds two IPs; it is deleted; the resync item of one of them
+    unassigns that one only and releases both *)
+Definition h_k3b : list pop := [
+  PIpam (OConfigure c10_conf false []);
+  PEnv (EStsSet (L "ns1", L "web") (Some 1));
+  PEnv (EPodPut (c10_pod [[(c10_ip2, c10_ip2)]; [(c10_ip3, c10_ip3)]]));
+  PEnv (EInformer c10_web0);
+  PFilter c10_web0 [L "node1"; L "node2"] (c10_orc None None []) no_faults;
+  PBind (L "ns1") (L "web-0") (L "uA") (L "node1") (c10_orc None None []) no_faults;
+  PEnv (EPodDelete c10_web0);
+  PEnv (EInformer c10_web0);
+  PResync c10_ip2 (c10_orc None None [c10_ip2; c10_ip3]) [c10_ip2; c10_ip3] no_faults ].
+
+(** a history of the theorems' domain with a live bound pod *)
+Definition h_c10_ok : list pop := [
+  PIpam (OConfigure c10_conf false []);
+  PEnv (EStsSet (L "ns1", L "web") (Some 1));
+  PEnv (EPodPut (c10_pod []));
+  PEnv (EInformer c10_web0);
+  PFilter c10_web0 [L "node1"; L "node2"] (c10_orc None None []) no_faults;
+  PBind (L "ns1") (L "web-0") (L "uA") (L "node1") (c10_orc None (Some c10_ip2) []) no_faults ].
+
+Ltac c10_wf_side :=
+  first [ exact I | discriminate | reflexivity | apply c10_pod_wf
+        | apply keeps_live_empty; vm_compute; reflexivity
+        | apply keeps_assigned_empty; vm_compute; reflexivity
+        | apply k3_free_empty; vm_compute; reflexivity
+        | apply uid_fresh_empty; vm_compute; reflexivity ].
+
+Lemma h_k3_refutes : wf_hist (world0 true c10_nodes) h_k3 ∧
+  log_replay ∅ (w_cloudlog (prun (world0 true c10_nodes) h_k3)) = None.
+Proof.
+  split; [|vm_compute; reflexivity].
+  unfold h_k3. cbn [wf_hist wf_op wf_env]. split_and!; c10_wf_side.
+Qed.
+
+Lemma h_k3b_refutes : wf_hist (world0 true c10_nodes) h_k3b ∧ ¬ cloud_alloc (prun (world0 true c10_nodes) h_k3b).
+Proof.
+  split.
+  - unfold h_k3b. cbn [wf_hist wf_op wf_env]. split_and!; c10_wf_side.
+  - intros H. destruct (H c10_ip3 (L "node1")) as (e & He & _); [vm_compute; reflexivity|].
+    vm_compute in He. discriminate He.
+Qed.
+
+Lemma h_c10_ok_live : wf_c10_hist (world0 true c10_nodes) h_c10_ok ∧
+  ∃ k p, w_pods (prun (world0 true c10_nodes) h_c10_ok) !! k = Some p ∧ live_bound p.
+Proof.
+  split.
+  - unfold h_c10_ok. cbn [wf_c10_hist]. unfold wf_c10. cbn [wf_op wf_env]. split_and!; c10_wf_side.
+  - exists c10_web0. eexists. split; [vm_compute; reflexivity|]. split; [reflexivity|discriminate].
+Qed.
+
+Print Assumptions cloud_wellformed_l.
+Print Assumptions freed_before_reuse_l.
+Print Assumptions h_k3_refutes.
+Print Assumptions h_k3b_refutes.
+Print Assumptions h_c10_ok_live.
